@@ -63,6 +63,12 @@ def run_op(op):
             lines[1] = "<HEADER>"
             scribble(g)
             return "\n".join(lines)
+        if kind == "write_calc":
+            g = graph_from_tucan(arg)
+            lines = graph_to_molfile(g, calc_coordinates=True).split("\n")
+            lines[1] = "<HEADER>"
+            scribble(g)
+            return "\n".join(lines)
         return "?"
     except Exception as e:
         return "ERR " + type(e).__name__
